@@ -11,6 +11,16 @@ package main
 //     the two offsets (Seek(0, io.SeekCurrent)), counts, data and error categories are compared, after
 //     every mutation the two file contents; after Close every method must return os.ErrClosed, exactly
 //     one close reached the server and no request with the closed handle arrived afterwards;
+// (b') the NAME of the served file is disturbed between calls while the handle stays open (op "nm": renamed away,
+//     removed, rotated = renamed away + a new file under the old name, replaced by a shorter/longer file renamed
+//     over it, replaced by a directory, by a symbolic link to another file, by a dangling link). On the os-backed
+//     server this is done to the real file, on the request server and the scripted peer STAT/LSTAT of the path
+//     answer what the name now shows while FSTAT of the handle keeps answering for the open file. The os.File twin's
+//     name is treated the same way; an os.File follows its descriptor, so must the File: every call must keep
+//     agreeing with the twin. In addition the requests a Seek puts on the wire are looked at: nothing for
+//     start/current-relative seeks, exactly one FSTAT carrying the handle for an end-relative one.
+//     (Documented difference, not reported: WriteTo with concurrent reads and without UseFstat(true) sizes its
+//     worker pool by STAT of the path; when the name is gone it returns that error having transferred nothing.)
 // (c) race: goroutines hammer ReadAt/WriteAt/Stat/Truncate while two others call Close; the raw
 //     client->server byte stream is parsed: one CLOSE frame, no frame with that handle after it.
 // Model: every sequence is also evaluated by the Lean driver op xfer.seq (when present).
@@ -43,7 +53,8 @@ func init() {
 const xfKeyF12 = "writeto-concurrent/offset-after-eof"
 
 type xfOp struct {
-	K    string `json:"k"` // r ra w wa rf rfc wt sk st tr cl
+	K    string `json:"k"` // r ra w wa rf rfc wt sk st tr cl nm
+	Act  string `json:"act,omitempty"` // nm: rename remove rotate replace dir symlink dangling (N: size of the file the name shows afterwards)
 	N    int    `json:"n,omitempty"`
 	Off  int64  `json:"off,omitempty"`
 	Wh   int    `json:"whence,omitempty"`
@@ -109,7 +120,7 @@ func (sc xfSeqCase) Text() string {
 	var sb strings.Builder
 	fmt.Fprintf(&sb, "%s %s S%d w%d q%d:", sc.Srv, sc.Cfg, sc.FileLen, sc.Window, sc.Limit)
 	for _, o := range sc.Ops {
-		fmt.Fprintf(&sb, " %s/%d/%d/%d/%s/%d", o.K, o.N, o.Off, o.Wh, o.Src, o.Conc)
+		fmt.Fprintf(&sb, " %s%s/%d/%d/%d/%s/%d", o.K, o.Act, o.N, o.Off, o.Wh, o.Src, o.Conc)
 		if len(o.Fail) > 0 {
 			fmt.Fprintf(&sb, "/f%v=%d", o.Fail, o.Code)
 		}
@@ -132,6 +143,7 @@ type xfSeqResult struct {
 	Modelled bool
 	SetupErr error
 	Failing  map[string]int // calls that ran with an injected failure, by kind
+	Marks    map[string]int // histogram buckets the run itself contributes (name disturbances, end-relative seeks after one …)
 }
 
 // xfWriteToPath tells which reader WriteTo uses for a file of size S.
@@ -143,6 +155,136 @@ func xfWriteToPath(cfg xfCfg, S int) string {
 		return "sequential-after-stat"
 	}
 	return "concurrent"
+}
+
+// xfWriteToPathView is the same when the name the File was opened with no longer shows the open file: with
+// concurrent reads and without UseFstat(true) WriteTo asks the PATH for the size its guess is based on.
+func xfWriteToPathView(cfg xfCfg, S int, v xfNameView) string {
+	if !cfg.CR || cfg.Fstat {
+		return xfWriteToPath(cfg, S)
+	}
+	switch v.Kind {
+	case "gone":
+		return "stat-by-name-failed"
+	case "dir":
+		return "sequential-after-stat"
+	case "file":
+		return xfWriteToPath(cfg, int(v.Size))
+	}
+	return xfWriteToPath(cfg, S)
+}
+
+func xfWhenceName(w int) string {
+	switch w {
+	case io.SeekStart:
+		return "start"
+	case io.SeekCurrent:
+		return "current"
+	case io.SeekEnd:
+		return "end"
+	}
+	return "bad-whence"
+}
+
+func xfReqName(t byte) string {
+	switch t {
+	case wire.Stat:
+		return "STAT(path)"
+	case wire.Lstat:
+		return "LSTAT(path)"
+	case wire.Fstat:
+		return "FSTAT(handle)"
+	}
+	return fmt.Sprintf("type %d", t)
+}
+
+// xfReadFd reads the whole file behind an open descriptor (its name may be gone).
+func xfReadFd(f *os.File) []byte {
+	st, err := f.Stat()
+	if err != nil {
+		return nil
+	}
+	b := make([]byte, st.Size())
+	n, _ := f.ReadAt(b, 0)
+	return b[:n]
+}
+
+var xfNameActs = []string{"rename", "remove", "rotate", "replace", "dir", "symlink", "dangling"}
+
+// xfViewAfter is what the name shows after the disturbance.
+func xfViewAfter(act string, n int) (xfNameView, bool) {
+	switch act {
+	case "rename", "remove":
+		return xfNameView{Kind: "gone"}, true
+	case "rotate", "replace":
+		return xfNameView{Kind: "file", Size: int64(n)}, true
+	case "dir":
+		return xfNameView{Kind: "dir"}, true
+	case "symlink":
+		return xfNameView{Kind: "file", Size: int64(n), Link: true}, true
+	case "dangling":
+		return xfNameView{Kind: "gone", Link: true}, true
+	}
+	return xfNameView{}, false
+}
+
+// xfDisturbName does it to a real name (the os-backed server's file, the os.File twin): rename = moved away,
+// remove = unlinked, rotate = moved away and a new n-byte file created under the name, replace = a new n-byte file
+// renamed over it, dir = a directory in its place, symlink = a link to another n-byte file, dangling = a link to
+// nothing. orig: the name still holds the file that was opened (otherwise whatever is there is simply cleared).
+func xfDisturbName(name, act string, n int, orig bool) error {
+	away, fresh, target := name+".away", name+".new", name+".target"
+	moveAway := func() error {
+		if !orig {
+			return os.RemoveAll(name)
+		}
+		os.RemoveAll(away)
+		return os.Rename(name, away)
+	}
+	switch act {
+	case "rename":
+		return moveAway()
+	case "remove":
+		return os.RemoveAll(name)
+	case "rotate":
+		if err := moveAway(); err != nil {
+			return err
+		}
+		return os.WriteFile(name, xfPat(3, n), 0o644)
+	case "replace":
+		if fi, err := os.Lstat(name); err == nil && fi.IsDir() {
+			os.RemoveAll(name)
+		}
+		if err := os.WriteFile(fresh, xfPat(5, n), 0o644); err != nil {
+			return err
+		}
+		return os.Rename(fresh, name)
+	case "dir":
+		if err := os.RemoveAll(name); err != nil {
+			return err
+		}
+		return os.Mkdir(name, 0o755)
+	case "symlink":
+		if err := os.RemoveAll(name); err != nil {
+			return err
+		}
+		if err := os.WriteFile(target, xfPat(9, n), 0o644); err != nil {
+			return err
+		}
+		return os.Symlink(target, name)
+	case "dangling":
+		if err := os.RemoveAll(name); err != nil {
+			return err
+		}
+		return os.Symlink(name+".nowhere", name)
+	}
+	return fmt.Errorf("unknown name disturbance %q", act)
+}
+
+func xfNameCleanup(name string) {
+	for _, p := range []string{name, name + ".away", name + ".new", name + ".target"} {
+		os.RemoveAll(p)
+	}
 }
 
 // xfRunSeq runs one sequence on the implementation and its os.File twin. It stops at the first
@@ -203,13 +345,48 @@ func xfRunSeq(sc xfSeqCase, real *xfReal, hold *xfPeerHold, dir string) (res xfS
 		return
 	}
 	defer f.Close()
+	// independent descriptors: both files stay readable whatever happens to their names
+	twRef, err := os.Open(twinPath)
+	if err != nil {
+		res.SetupErr = err
+		return
+	}
+	defer twRef.Close()
+	var srvRef *os.File
+	if real != nil && real.Spec.Kind == "os" {
+		if srvRef, err = os.Open(path0); err != nil {
+			res.SetupErr = err
+			return
+		}
+		defer srvRef.Close()
+	}
 	getFile := func() []byte {
 		if peer != nil {
 			return peer.Get()
 		}
+		if srvRef != nil {
+			return xfReadFd(srvRef)
+		}
 		b, _ := real.Get("f")
 		return b
 	}
+	// what the name the File was opened with shows now
+	view := xfNameView{Kind: "same"}
+	disturbed := false
+	defer func() {
+		if !disturbed {
+			return
+		}
+		xfNameCleanup(twinPath)
+		switch {
+		case peer != nil:
+			peer.SetBehaviour(func(o *xfPeerOpts) { o.PathView = nil })
+		case real.Mem != nil:
+			real.Mem.SetNameView(path0, xfNameView{})
+		default:
+			xfNameCleanup(path0)
+		}
+	}()
 	fail := func(at int, key, what string, exp, act any) {
 		res.Fails = append(res.Fails, xfSeqFailure{Key: key, What: what, At: at, Expected: exp, Actual: act})
 	}
@@ -218,7 +395,37 @@ func xfRunSeq(sc xfSeqCase, real *xfReal, hold *xfPeerHold, dir string) (res xfS
 	var parts []string
 	res.Modelled = sc.Limit == 0
 	res.Failing = map[string]int{}
+	res.Marks = map[string]int{}
 	for i, op := range sc.Ops {
+		if op.K == "nm" {
+			// the name is disturbed, on both sides alike; the handles stay open. (The model does not know names:
+			// it is asked the same sequence without these steps, which is what the property says.)
+			nv, ok := xfViewAfter(op.Act, op.N)
+			if !ok {
+				res.SetupErr = fmt.Errorf("unknown name disturbance %q", op.Act)
+				return
+			}
+			disturbed = true
+			if err := xfDisturbName(twinPath, op.Act, op.N, view.Kind == "same"); err != nil {
+				res.SetupErr = fmt.Errorf("twin: %v", err)
+				return
+			}
+			switch {
+			case peer != nil:
+				v := nv
+				peer.SetBehaviour(func(o *xfPeerOpts) { o.PathView = &v })
+			case real.Mem != nil:
+				real.Mem.SetNameView(path0, nv)
+			default:
+				if err := xfDisturbName(path0, op.Act, op.N, view.Kind == "same"); err != nil {
+					res.SetupErr = fmt.Errorf("served file: %v", err)
+					return
+				}
+			}
+			view = nv
+			res.Marks["call=nm|"+op.Act]++
+			continue
+		}
 		if op.model() == "" {
 			res.Modelled = false
 		}
@@ -258,6 +465,17 @@ func xfRunSeq(sc xfSeqCase, real *xfReal, hold *xfPeerHold, dir string) (res xfS
 			if real != nil && real.Mem != nil && isW {
 				real.Mem.TakeApplied()
 				quota = sc.Limit > 0 && op.N > 0 && start+int64(op.N) > sc.Limit
+			}
+		}
+		wireFrom := 0
+		if !closed && op.K == "wt" {
+			offBefore, _ = tw.Seek(0, io.SeekCurrent)
+		}
+		if !closed && op.K == "sk" {
+			if peer != nil {
+				wireFrom = peer.LogLen()
+			} else {
+				real.Tap.Take()
 			}
 		}
 		var sn, tn int64
@@ -359,7 +577,7 @@ func xfRunSeq(sc xfSeqCase, real *xfReal, hold *xfPeerHold, dir string) (res xfS
 		case "wt":
 			st, _ := tw.Stat()
 			if st != nil {
-				path = "/" + xfWriteToPath(sc.Cfg, int(st.Size()))
+				path = "/" + xfWriteToPathView(sc.Cfg, int(st.Size()), view)
 			}
 		case "r", "ra":
 			path = "/" + xfCase{Cfg: sc.Cfg, API: "ReadAt", Len: op.N}.Path()
@@ -367,6 +585,8 @@ func xfRunSeq(sc xfSeqCase, real *xfReal, hold *xfPeerHold, dir string) (res xfS
 			path = "/" + xfCase{Cfg: sc.Cfg, API: "WriteAt", Len: op.N}.Path()
 		case "rf":
 			path = "/" + xfCase{Cfg: sc.Cfg, API: "ReadFrom", Src: op.Src, Len: op.N}.Path()
+		case "sk":
+			path = "/" + xfWhenceName(op.Wh)
 		}
 		key := "seq/" + op.K + path
 		if closed {
@@ -380,6 +600,22 @@ func xfRunSeq(sc xfSeqCase, real *xfReal, hold *xfPeerHold, dir string) (res xfS
 				fail(i, "after-close/twin/"+op.K, "os.File itself does not return os.ErrClosed here", "os.ErrClosed", fmt.Sprint(terr))
 			}
 			parts = append(parts, fmt.Sprintf("%d:0:closed:7", lastOff))
+			continue
+		}
+		if op.K == "wt" && serr != nil && sc.Cfg.CR && !sc.Cfg.Fstat && view.Kind == "gone" {
+			// Documented difference (see the head of the file): the concurrent WriteTo sizes its worker pool by STAT of
+			// the path unless UseFstat(true); the path is gone, so it fails before it transfers anything. What C12
+			// says about it still holds: nothing transferred, offset unmoved.
+			so, e1 := f.Seek(0, io.SeekCurrent)
+			if e1 != nil || sn != 0 || len(sdata) != 0 || so != offBefore || xfErrClass(serr) != "srv2" {
+				fail(i, key+"/result", "a WriteTo whose STAT of the vanished path failed must return that error, transfer nothing and leave the offset alone",
+					fmt.Sprintf("(0, no such file), offset %d", offBefore), fmt.Sprintf("(%d, %v), %d bytes delivered, offset %d (%v)", sn, serr, len(sdata), so, e1))
+				return
+			}
+			tw.Seek(offBefore, io.SeekStart)
+			res.Modelled = false
+			res.Marks["call=wt|name=gone|stat-by-name-failed"]++
+			lastOff = so
 			continue
 		}
 		if inject || quota {
@@ -551,7 +787,7 @@ func xfRunSeq(sc xfSeqCase, real *xfReal, hold *xfPeerHold, dir string) (res xfS
 			st, _ := tw.Stat()
 			mp := int64(sc.Cfg.MP)
 			start := to - tn
-			if op.K == "wt" && st != nil && xfWriteToPath(sc.Cfg, int(st.Size())) == "concurrent" && tn > 0 && so == start+(tn+mp-1)/mp*mp {
+			if op.K == "wt" && st != nil && xfWriteToPathView(sc.Cfg, int(st.Size()), view) == "concurrent" && tn > 0 && so == start+(tn+mp-1)/mp*mp {
 				fail(i, xfKeyF12, "concurrent WriteTo of a file whose remaining size is not a multiple of the packet size leaves the offset at the next multiple instead of at end of file",
 					to, so)
 				if _, err := f.Seek(to, io.SeekStart); err != nil {
@@ -563,10 +799,59 @@ func xfRunSeq(sc xfSeqCase, real *xfReal, hold *xfPeerHold, dir string) (res xfS
 				return
 			}
 		}
+		if op.K == "sk" {
+			// the wire: an end-relative Seek learns the size of the OPEN file (FSTAT on its handle is the only request of
+			// the protocol that gives it), the others need nothing from the server
+			// (READ/WRITE frames are not counted: the read-ahead of a preceding concurrent transfer may still be arriving
+			// at the server when the transfer has returned)
+			var sent []string
+			good := 0
+			if peer != nil {
+				for _, q := range peer.LogFrom(wireFrom) {
+					if q.Typ == wire.Read || q.Typ == wire.Write {
+						continue
+					}
+					sent = append(sent, xfReqName(q.Typ))
+					if q.Typ == wire.Fstat && !q.Stale && q.Malformed == "" {
+						good++
+					}
+				}
+			} else {
+				for _, q := range real.Tap.Take() {
+					if q.Typ == wire.Read || q.Typ == wire.Write {
+						continue
+					}
+					sent = append(sent, xfReqName(q.Typ))
+					if q.Typ == wire.Fstat {
+						good++
+					}
+				}
+			}
+			want := 0
+			if op.Wh == io.SeekEnd {
+				want = 1
+			}
+			if len(sent) != want || good != want {
+				exp := "no request"
+				if want == 1 {
+					exp = "exactly one FSTAT carrying the File's handle"
+				}
+				fail(i, key+"/wire", "the requests Seek put on the wire are not those of a seek on the open file (the end is the end of the file behind the handle, whatever the name it was opened with shows now)",
+					exp, fmt.Sprintf("%v (name shows: %s)", sent, view.Kind))
+				return
+			}
+			if op.Wh == io.SeekEnd && view.Kind != "same" {
+				k := "call=sk|whence=2|name=" + view.Kind
+				if terr != nil {
+					k += "|negative-result"
+				}
+				res.Marks[k]++
+			}
+		}
 		// contents after a mutation
 		switch op.K {
 		case "w", "wa", "rf", "rfc", "tr":
-			want, _ := os.ReadFile(twinPath)
+			want := xfReadFd(twRef)
 			if got := getFile(); !bytes.Equal(got, want) {
 				fail(i, key+"/content", fmt.Sprintf("served file differs from the os twin after the call (sizes %d vs %d, first difference at %d)", len(got), len(want), xfFirstDiff(got, want)),
 					xfShort(want), xfShort(got))
@@ -606,7 +891,7 @@ func xfRunSeq(sc xfSeqCase, real *xfReal, hold *xfPeerHold, dir string) (res xfS
 
 // ---------- sequence generator ----------
 
-func xfGenSeq(rng *rand.Rand, cfg xfCfg, n int, failable bool) (S int, ops []xfOp) {
+func xfGenSeq(rng *rand.Rand, cfg xfCfg, n int, failable, disturb bool) (S int, ops []xfOp) {
 	mp := cfg.MP
 	S = xfPickSize(rng, cfg)
 	if S > 3*mp*4+2 {
@@ -638,6 +923,12 @@ func xfGenSeq(rng *rand.Rand, cfg xfCfg, n int, failable bool) (S int, ops []xfO
 	cur := S // a rough idea of the current size, only used to aim offsets
 	kinds := []string{"r", "r", "ra", "w", "wa", "rf", "rfc", "wt", "wt", "sk", "sk", "sk", "st", "tr"}
 	srcs := []string{"len", "size", "stat", "limited", "opaque", "opaque1"}
+	if disturb {
+		kinds = append(kinds, "nm", "nm")
+	}
+	endOffs := func() int64 {
+		return []int64{0, 0, -1, 1, -int64(mp), -int64(cur), -int64(cur) - 1, int64(mp) + 1, -int64(mp) - 1, -int64(cur) / 2}[rng.Intn(10)]
+	}
 	for len(ops) < n {
 		k := kinds[rng.Intn(len(kinds))]
 		op := xfOp{K: k}
@@ -660,6 +951,19 @@ func xfGenSeq(rng *rand.Rand, cfg xfCfg, n int, failable bool) (S int, ops []xfO
 		case "rfc":
 			op.N, op.Seed, op.Conc, op.Src = lens(), rng.Intn(251), []int{0, 1, 3}[rng.Intn(3)], "opaque"
 			cur += op.N / 2
+		case "nm":
+			// the name is disturbed; the file the name shows afterwards (if any) is shorter or longer than the open one
+			op.Act = xfNameActs[rng.Intn(len(xfNameActs))]
+			op.N = []int{0, cur / 2, cur - 1, cur + 1, cur + mp + 1, mp, 3*mp + 1}[rng.Intn(7)]
+			if op.N < 0 {
+				op.N = 0
+			}
+			ops = append(ops, op)
+			// … and most of the time an end-relative Seek follows at once (the other calls come by themselves)
+			for j := rng.Intn(3); j > 0; j-- {
+				ops = append(ops, xfOp{K: "sk", Wh: 2, Off: endOffs()})
+			}
+			continue
 		case "sk":
 			op.Wh = []int{0, 0, 1, 1, 2, 2, 5, 7, -1}[rng.Intn(9)] // (3 and 4 are SEEK_DATA / SEEK_HOLE on Linux: valid for os.File)
 			switch op.Wh {
@@ -671,7 +975,7 @@ func xfGenSeq(rng *rand.Rand, cfg xfCfg, n int, failable bool) (S int, ops []xfO
 			case 1:
 				op.Off = []int64{0, 1, -1, int64(mp), -int64(mp), int64(mp) + 1, -int64(cur) - 1, -int64(cur)}[rng.Intn(8)]
 			case 2:
-				op.Off = []int64{0, -1, 1, -int64(mp), -int64(cur), -int64(cur) - 1, int64(mp) + 1, -int64(mp) - 1}[rng.Intn(8)]
+				op.Off = endOffs()
 			default:
 				op.Off = offs(cur)
 			}
@@ -708,6 +1012,47 @@ func xfGenSeq(rng *rand.Rand, cfg xfCfg, n int, failable bool) (S int, ops []xfO
 	rng.Shuffle(len(after), func(i, j int) { after[i], after[j] = after[j], after[i] })
 	ops = append(ops, after[:4+rng.Intn(len(after)-3)]...)
 	return S, ops
+}
+
+// xfNameSeq is a written-out sequence around one disturbance of the name (act, then act2): S is the exact size of
+// the open file, which the steps keep track of, so that the end-relative seeks hit 0, the last byte, the first
+// byte, one before the first byte (to be rejected without moving) and beyond the end, before and after the
+// size changes through the handle (append, truncate). variant picks the prefix and whether the file the name shows
+// is shorter or longer than the open one.
+func xfNameSeq(cfg xfCfg, S int, variant int, act, act2 string) []xfOp {
+	mp := cfg.MP
+	size := S
+	var ops []xfOp
+	other := func(longer bool) int {
+		if longer {
+			return size + mp + 1
+		}
+		return size / 2
+	}
+	ends := func() {
+		ops = append(ops, xfOp{K: "sk", Wh: 2}, xfOp{K: "sk", Wh: 2, Off: -1}, xfOp{K: "sk", Wh: 2, Off: -int64(size)},
+			xfOp{K: "sk", Wh: 2, Off: -int64(size) - 1}, xfOp{K: "sk", Wh: 1}, xfOp{K: "sk", Wh: 2, Off: int64(mp) + 1}, xfOp{K: "sk", Wh: 2})
+	}
+	switch variant % 3 {
+	case 1:
+		ops = append(ops, xfOp{K: "sk", Off: int64(mp) + 1})
+	case 2:
+		ops = append(ops, xfOp{K: "sk", Wh: 2}, xfOp{K: "w", N: mp + 1, Seed: 11}, xfOp{K: "sk", Off: 1})
+		size += mp + 1
+	}
+	ops = append(ops, xfOp{K: "nm", Act: act, N: other(variant&1 == 0)})
+	ends()
+	ops = append(ops, xfOp{K: "w", N: 1, Seed: 77}) // appended at the end of the open file
+	size++
+	ops = append(ops, xfOp{K: "r", N: 1}, xfOp{K: "st"}, xfOp{K: "sk", Wh: 2, Off: -int64(size)}, xfOp{K: "wt"}, xfOp{K: "sk", Wh: 2, Off: -int64(size) - 1})
+	size /= 2
+	ops = append(ops, xfOp{K: "tr", N: size}, xfOp{K: "sk", Wh: 2}, xfOp{K: "sk", Wh: 2, Off: -int64(size) - 1}, xfOp{K: "rf", N: mp + 1, Seed: 5, Src: "len"})
+	size += mp + 1
+	ops = append(ops, xfOp{K: "nm", Act: act2, N: other(variant&1 == 1)})
+	ends()
+	ops = append(ops, xfOp{K: "ra", N: 2, Off: 0}, xfOp{K: "wa", N: 2, Seed: 3, Off: int64(size)}, xfOp{K: "sk", Wh: 2, Off: -1})
+	ops = append(ops, xfOp{K: "cl"}, xfOp{K: "sk", Wh: 2}, xfOp{K: "st"}, xfOp{K: "sk", Wh: 1}, xfOp{K: "wt"})
+	return ops
 }
 
 // xfShrinkSeq removes calls one at a time while the same failure key still shows.
@@ -906,7 +1251,7 @@ func checkC12(c *lib.Ctx) {
 	r := c.R
 	res := &xfRes{r: r}
 	thorough := c.Tier == "thorough"
-	r.Rule = "(a) WriteTo offset sweep: file sizes 0..3*mp*min(conc,3)+2 x start offsets {0,1,mp,size-1,size,size+1} x UseConcurrentReads x UseFstat x (mp,conc) on the scripted peer; (b) PRNG sequences (quick ~12, thorough ~40 calls + Close + 4..18 calls after Close) of Read/ReadAt/Write/WriteAt/ReadFrom(6 source kinds)/ReadFromWithConcurrency/WriteTo/Seek(whence 0,1,2 and invalid 5,7,-1; negative targets)/Stat/Truncate on os-backed server, request server and scripted peer (in order and permuted replies); in every second peer sequence a quarter of the read/write calls have 1-2 PRNG-chosen chunks answered with status 4/3, in every second request-server sequence the handler refuses writes beyond a PRNG quota: there the reference is offset-before + the intact prefix the server side recorded as stored (ReadAt/WriteAt: unchanged) x client options (quick: every (mp,conc) pair with rotating booleans, thorough: full product), mirrored on an *os.File; (c) Close raced by 2 closers against 3..8 goroutines of ReadAt/WriteAt/Stat/Truncate on the scripted peer with the raw request stream parsed; non-trivial = a sequence that moves the offset through at least two different methods; distinct by the whole case text"
+	r.Rule = "(a) WriteTo offset sweep: file sizes 0..3*mp*min(conc,3)+2 x start offsets {0,1,mp,size-1,size,size+1} x UseConcurrentReads x UseFstat x (mp,conc) on the scripted peer; (b) PRNG sequences (quick ~12, thorough ~40 calls + Close + 4..18 calls after Close) of Read/ReadAt/Write/WriteAt/ReadFrom(6 source kinds)/ReadFromWithConcurrency/WriteTo/Seek(whence 0,1,2 and invalid 5,7,-1; negative targets)/Stat/Truncate on os-backed server, request server and scripted peer (in order and permuted replies); in every second peer sequence a quarter of the read/write calls have 1-2 PRNG-chosen chunks answered with status 4/3, in every second request-server sequence the handler refuses writes beyond a PRNG quota: there the reference is offset-before + the intact prefix the server side recorded as stored (ReadAt/WriteAt: unchanged) x client options (quick: every (mp,conc) pair with rotating booleans, thorough: full product), mirrored on an *os.File; (b') per server kind and option set 7 (thorough 42) written-out sequences around a disturbed NAME with the handle open (op nm: rename away / remove / rotate / replace by a shorter or longer file / directory / symlink / dangling link, a second different one later; file sizes {0,1,mp,mp+1,2mp,3mp+2}; after each: Seek(x, io.SeekEnd) for x in {0,-1,-size,-size-1 (negative result: rejected without moving),+mp+1}, append, Read, Stat, WriteTo, Truncate, ReadFrom, ReadAt/WriteAt, Close), and every third PRNG sequence draws nm steps (each followed by 0-2 end-relative seeks) among its calls: real renames/removals on the os-backed server, differing STAT/LSTAT(path) vs FSTAT(handle) answers on the request server and the scripted peer, the same done to the os.File twin's name; every Seek's requests are read off the wire (none, or exactly one FSTAT on the handle for io.SeekEnd); (c) Close raced by 2 closers against 3..8 goroutines of ReadAt/WriteAt/Stat/Truncate on the scripted peer with the raw request stream parsed; non-trivial = a sequence that moves the offset through at least two different methods; distinct by the whole case text"
 	model := xfProbeModel(c)
 	xfProbeDefects(&model)
 	if model.Seq {
@@ -935,7 +1280,9 @@ func checkC12(c *lib.Ctx) {
 		}
 		var calls []string
 		for _, o := range sc.Ops {
-			calls = append(calls, o.model())
+			if o.K != "nm" { // the model has no names: a disturbed name must change nothing
+				calls = append(calls, o.model())
+			}
 		}
 		mc.add(xfSeqLine{input: sc, line: fmt.Sprintf("xfer.seq %s %d %s", model.cfgToken(sc.Cfg, xfMaxTx(sc.Srv)), sc.FileLen, strings.Join(calls, ";")),
 			calls: sr.Impl, file: sr.FileText})
@@ -1083,17 +1430,37 @@ func checkC12(c *lib.Ctx) {
 			}
 		}()
 		run := func(sc xfSeqCase) xfSeqResult { return xfRunSeq(sc, real, hold, dir) }
-		for s := 0; s < perJob; s++ {
-			n := seqLen/2 + rng.Intn(seqLen)
-			if job.Cfg.MP > 1000 {
-				n = 4 + rng.Intn(6)
+		nameSeqs := len(xfNameActs)
+		if thorough {
+			nameSeqs *= 6
+		}
+		for s := -nameSeqs; s < perJob; s++ {
+			var S int
+			var ops []xfOp
+			if s < 0 {
+				// (b') the written-out sequences around a disturbed name: every kind of disturbance for this option set
+				t := s + nameSeqs
+				ai, variant := t%len(xfNameActs), t/len(xfNameActs)+job.Idx
+				mp := job.Cfg.MP
+				S = []int{0, 1, mp + 1, 3*mp + 2, mp, 2 * mp}[(job.Idx+t)%6]
+				ops = xfNameSeq(job.Cfg, S, variant, xfNameActs[ai], xfNameActs[(ai+3+variant%2)%len(xfNameActs)])
+			} else {
+				n := seqLen/2 + rng.Intn(seqLen)
+				if job.Cfg.MP > 1000 {
+					n = 4 + rng.Intn(6)
+				}
+				S, ops = xfGenSeq(rng, job.Cfg, n, job.Spec.Kind == "peer" && s%2 == 1, s%3 == 2)
 			}
-			S, ops := xfGenSeq(rng, job.Cfg, n, job.Spec.Kind == "peer" && s%2 == 1)
 			sc := xfSeqCase{Srv: job.Spec, Cfg: job.Cfg, FileLen: S, Ops: ops, Window: 1}
-			if job.Spec.Kind == "rs" && s%2 == 1 {
+			if s < 0 {
+				if job.Spec.Perm {
+					sc.Seed = rng.Int63()
+					sc.Window = 2 + rng.Intn(job.Cfg.Conc+1)
+				}
+			} else if job.Spec.Kind == "rs" && s%2 == 1 {
 				sc.Limit = int64(S/2 + 1 + rng.Intn(S/2+2*job.Cfg.MP+2))
 			}
-			if job.Spec.Perm {
+			if job.Spec.Perm && s >= 0 {
 				sc.Seed = rng.Int63()
 				sc.Window = 2 + rng.Intn(job.Cfg.Conc+1)
 			}
@@ -1111,9 +1478,20 @@ func checkC12(c *lib.Ctx) {
 			res.Case(sc.Text(), len(movers) >= 2)
 			hs := []string{"seq|srv=" + job.Spec.String(), fmt.Sprintf("seq|opt=mp%d|c%d", job.Cfg.MP, job.Cfg.Conc),
 				fmt.Sprintf("seq|opt=cr%d|cw%d|fstat%d", xfB(job.Cfg.CR), xfB(job.Cfg.CW), xfB(job.Cfg.Fstat))}
+			if s < 0 {
+				hs = append(hs, "seq|written-out-around-a-disturbed-name")
+			}
+			for k, n := range sr.Marks {
+				for ; n > 0; n-- {
+					hs = append(hs, k)
+				}
+			}
 			closedAt := -1
 			for i, o := range ops {
 				k := "call=" + o.K
+				if o.K == "nm" {
+					continue // counted by the run (only those that were carried out)
+				}
 				if closedAt >= 0 {
 					k = "after-close=" + o.K
 				} else if o.K == "sk" {
